@@ -8,6 +8,7 @@ import PercevalModel.Lemmas.C10Ext
 import PercevalModel.Lemmas.C10Hist
 import PercevalModel.Lemmas.C10HistR
 import PercevalModel.Lemmas.C10Wave7
+import PercevalModel.Model.C10Verdict
 import PercevalModel.Num.GQ
 
 open Matrix
@@ -2860,6 +2861,323 @@ theorem add_component_list_iff (f1 : RFlags) (f2 f3 : Bool) (l r : Side) (ks : L
       exact ⟨_, (resolve_list_ok_iff f1 l r ks _ hm hwf).2 ⟨a, b, c, rfl⟩⟩
   · rw [h2, resolve_list_invalid_iff f1 l r ks hm hwf]
   · rw [h2, resolve_list_unavailable_iff f1 l r ks hm hwf]
+
+
+
+/-! ## wave 9 — the verdict of the add of a bare component, left post-selection included
+
+`add_component_verdict` / `add_component_offset_iff` / `add_component_list_iff` assumed a left processor WITHOUT
+post-selection. The hypothesis is dropped here: the chain resolve → `_validate_postselect_composition` →
+`generate_permutation` is characterised for every left processor, and `compVerdict` (Model/C10Verdict.lean) gives
+its outcome in closed form. -/
+
+theorem add_component_verdict_ps (f1 : RFlags) (f2 f3 : Bool) (l r : Side) (raw : RawMap) (keep : Bool)
+    (hr : r.comp = true) (hraw : ∀ items, raw ≠ .ofDict items) :
+    ((∃ res, compose f1 f2 f3 l r raw keep = .ok res) ↔
+      ∃ d, resolve f1 l r raw = .ok d ∧ validatePS l (d.keys.map Int.toNat) = .ok ()) ∧
+    (∀ x, compose f1 f2 f3 l r raw keep = .error x ↔
+      (resolve f1 l r raw = .error x ∨
+        ∃ d, resolve f1 l r raw = .ok d ∧ validatePS l (d.keys.map Int.toNat) = .error x)) := by
+  have hwf : RightWF r := fun hc => by rw [hr] at hc; cases hc
+  cases hres : resolve f1 l r raw with
+  | error y =>
+    have hc : compose f1 f2 f3 l r raw keep = .error y := by
+      unfold compose
+      simp only [bind, Except.bind, hres]
+    rw [hc]
+    refine ⟨⟨?_, ?_⟩, fun x => ⟨?_, ?_⟩⟩
+    · rintro ⟨_, h⟩; cases h
+    · rintro ⟨_, h, _⟩; cases h
+    · intro h; cases h; exact Or.inl rfl
+    · rintro (h | ⟨_, h, _⟩)
+      · cases h; rfl
+      · cases h
+  | ok d =>
+    obtain ⟨mp, σ, hm, hσ⟩ := genPerm_ok_of_accepted_int_list f1 l r raw d hraw hwf hres
+    have hpi : permInput l r mp = mp := by simp [permInput, hr]
+    rw [hpi] at hσ
+    cases hv : validatePS l (d.keys.map Int.toNat) with
+    | error e =>
+      have hc : compose f1 f2 f3 l r raw keep = .error e := by
+        unfold compose
+        simp only [bind, Except.bind, hres, hv]
+      rw [hc]
+      refine ⟨⟨?_, ?_⟩, fun x => ⟨?_, ?_⟩⟩
+      · rintro ⟨_, h⟩; cases h
+      · rintro ⟨_, h, h2⟩; cases h; rw [hv] at h2; cases h2
+      · intro h; cases h; exact Or.inr ⟨d, rfl, hv⟩
+      · rintro (h | ⟨_, h, h2⟩)
+        · cases h
+        · cases h; rw [hv] at h2; cases h2; rfl
+    | ok u =>
+      have hc : ∃ res, compose f1 f2 f3 l r raw keep = .ok res := by
+        unfold compose
+        simp only [bind, Except.bind, hres, hv, hm, hr, if_true, hσ, pure, Except.pure]
+        exact ⟨_, rfl⟩
+      obtain ⟨res, hc⟩ := hc
+      rw [hc]
+      refine ⟨⟨fun _ => ⟨d, rfl, hv⟩, fun _ => ⟨res, rfl⟩⟩, fun x => ⟨?_, ?_⟩⟩
+      · intro h; cases h
+      · rintro (h | ⟨_, h, h2⟩)
+        · cases h
+        · cases h; rw [hv] at h2; cases h2
+
+theorem verdict_of_resolve_ok (f1 : RFlags) (f2 f3 : Bool) (l r : Side) (raw : RawMap) (keep : Bool) (d : Dict)
+    (hr : r.comp = true) (hraw : ∀ items, raw ≠ .ofDict items) (hres : resolve f1 l r raw = .ok d) :
+    ((∃ res, compose f1 f2 f3 l r raw keep = .ok res) ↔ verdictOf (validatePS l (d.keys.map Int.toNat)) = none) ∧
+    (∀ x, compose f1 f2 f3 l r raw keep = .error x ↔
+      verdictOf (validatePS l (d.keys.map Int.toNat)) = some x) := by
+  obtain ⟨h1, h2⟩ := add_component_verdict_ps f1 f2 f3 l r raw keep hr hraw
+  refine ⟨?_, fun x => ?_⟩
+  · rw [h1]
+    constructor
+    · rintro ⟨d', hd', hv⟩
+      rw [hres] at hd'; cases hd'; rw [hv]; rfl
+    · intro h
+      refine ⟨d, hres, ?_⟩
+      cases hv : validatePS l (d.keys.map Int.toNat) with
+      | ok u => rfl
+      | error e => rw [hv] at h; cases h
+  · rw [h2 x]
+    constructor
+    · rintro (h | ⟨d', hd', hv⟩)
+      · rw [hres] at h; cases h
+      · rw [hres] at hd'; cases hd'; rw [hv]; rfl
+    · intro h
+      refine Or.inr ⟨d, hres, ?_⟩
+      cases hv : validatePS l (d.keys.map Int.toNat) with
+      | ok u => rw [hv] at h; cases h
+      | error e => rw [hv] at h; cases h; rfl
+
+theorem verdict_of_resolve_error (f1 : RFlags) (f2 f3 : Bool) (l r : Side) (raw : RawMap) (keep : Bool) (e : Err)
+    (hr : r.comp = true) (hraw : ∀ items, raw ≠ .ofDict items) (hres : resolve f1 l r raw = .error e) :
+    ((∃ res, compose f1 f2 f3 l r raw keep = .ok res) ↔ (some e : Option Err) = none) ∧
+    (∀ x, compose f1 f2 f3 l r raw keep = .error x ↔ some e = some x) := by
+  obtain ⟨h1, h2⟩ := add_component_verdict_ps f1 f2 f3 l r raw keep hr hraw
+  refine ⟨?_, fun x => ?_⟩
+  · rw [h1]
+    constructor
+    · rintro ⟨d', hd', -⟩; rw [hres] at hd'; cases hd'
+    · intro h; cases h
+  · rw [h2 x]
+    constructor
+    · rintro (h | ⟨d', hd', -⟩)
+      · rw [hres] at h; cases h; rfl
+      · rw [hres] at hd'; cases hd'
+    · intro h; cases h; exact Or.inl hres
+
+/-- **the verdict of `Processor.add(mapping, component)` in closed form, left post-selection included**: for an
+offset or list mapping of a bare component with `m ≥ 1` modes, the add is accepted iff `compVerdict` is `none`
+and refused with exactly the error class `compVerdict` names otherwise. -/
+theorem add_component_closed (f1 : RFlags) (f2 f3 : Bool) (l r : Side) (raw : RawMap) (keep : Bool)
+    (hr : r.comp = true) (hm : 0 < r.m) (hraw : ∀ items, raw ≠ .ofDict items) :
+    ((∃ res, compose f1 f2 f3 l r raw keep = .ok res) ↔ compVerdict l r raw = none) ∧
+    (∀ x, compose f1 f2 f3 l r raw keep = .error x ↔ compVerdict l r raw = some x) := by
+  have hwf : RightWF r := fun hc => by rw [hr] at hc; cases hc
+  cases raw with
+  | ofDict items => exact absurd rfl (hraw items)
+  | ofInt b =>
+    by_cases hA : (List.range r.m).all (fun i => connectible l.cs l.conn (b + Int.ofNat i)) = true
+    · have hall : ∀ i : Nat, i < r.m → connectible l.cs l.conn (b + i) = true := by
+        intro i hi
+        exact (List.all_eq_true.1 hA) i (List.mem_range.2 hi)
+      have hres := (resolve_int_ok_iff_wf f1 l r b (intMap b r) hm hwf).2 ⟨rfl, hall⟩
+      have hk : (intMap b r).keys.map Int.toNat
+          = (List.range r.m).map fun (i : Nat) => (b + Int.ofNat i).toNat := by
+        rw [intMap_keys, List.map_map]; rfl
+      have hcv : compVerdict l r (.ofInt b) = verdictOf (validatePS l ((intMap b r).keys.map Int.toNat)) := by
+        rw [hk]
+        simp only [compVerdict, hA, if_true]
+        cases validatePS l ((List.range r.m).map fun (i : Nat) => (b + Int.ofNat i).toNat) <;> rfl
+      rw [hcv]
+      exact verdict_of_resolve_ok f1 f2 f3 l r _ keep _ hr hraw hres
+    · have hex : ∃ i : Nat, i < r.m ∧ connectible l.cs l.conn (b + i) = false := by
+        by_contra hne
+        apply hA
+        rw [List.all_eq_true]
+        intro i hi
+        by_contra hc
+        exact hne ⟨i, List.mem_range.1 hi, by simpa using hc⟩
+      have hres := (resolve_int_error_iff_wf f1 l r b .unavailable hm hwf).2 ⟨rfl, hex⟩
+      have hcv : compVerdict l r (.ofInt b) = some .unavailable := by
+        simp only [compVerdict, hA]; rfl
+      rw [hcv]
+      exact verdict_of_resolve_error f1 f2 f3 l r _ keep _ hr hraw hres
+  | ofList ks =>
+    by_cases hbad : ks.length ≠ r.m ∨ ¬ ks.Nodup
+    · have hres := (resolve_list_invalid_iff f1 l r ks hm hwf).2 hbad
+      have hcv : compVerdict l r (.ofList ks) = some .invalid := by
+        simp only [compVerdict, hbad, if_true]
+      rw [hcv]
+      exact verdict_of_resolve_error f1 f2 f3 l r _ keep _ hr hraw hres
+    · have hlen : ks.length = r.m := by
+        by_contra h; exact hbad (Or.inl h)
+      have hnd : ks.Nodup := by
+        by_contra h; exact hbad (Or.inr h)
+      by_cases hA : ks.all (fun k => connectible l.cs l.conn k) = true
+      · have hall : ∀ k ∈ ks, connectible l.cs l.conn k = true := fun k hk => (List.all_eq_true.1 hA) k hk
+        have hres := (resolve_list_ok_iff f1 l r ks (listMap ks r) hm hwf).2 ⟨hlen, hnd, hall, rfl⟩
+        have hk : (listMap ks r).keys = ks := by
+          have hrl := orderedRModes_length r hwf
+          simp only [listMap, Dict.keys]
+          rw [← List.unzip_fst, List.unzip_zip_left]
+          simp [hrl, hlen]
+        have hcv : compVerdict l r (.ofList ks) = verdictOf (validatePS l ((listMap ks r).keys.map Int.toNat)) := by
+          rw [hk]
+          simp only [compVerdict, hbad, if_false, hA, if_true]
+          cases validatePS l (ks.map Int.toNat) <;> rfl
+        rw [hcv]
+        exact verdict_of_resolve_ok f1 f2 f3 l r _ keep _ hr hraw hres
+      · have hex : ∃ k ∈ ks, connectible l.cs l.conn k = false := by
+          by_contra hne
+          apply hA
+          rw [List.all_eq_true]
+          intro k hk
+          by_contra hc
+          exact hne ⟨k, hk, by simpa using hc⟩
+        have hres := (resolve_list_unavailable_iff f1 l r ks hm hwf).2 ⟨hlen, hnd, hex⟩
+        have hcv : compVerdict l r (.ofList ks) = some .unavailable := by
+          simp only [compVerdict, hbad, if_false, hA]; rfl
+        rw [hcv]
+        exact verdict_of_resolve_error f1 f2 f3 l r _ keep _ hr hraw hres
+
+/-- the post-selection validation of `Processor.add` refuses (AssertionError) exactly when the left processor has
+a post-selection one of whose conditions contains some but not all of the mapped modes -/
+theorem validatePS_ok_iff (l : Side) (keys : List Nat) :
+    validatePS l keys = .ok () ↔
+      ∀ p, l.ps = some p → ∀ c ∈ p.conds, (∀ k ∈ keys, k ∈ c) ∨ (∀ k ∈ keys, k ∉ c) := by
+  unfold validatePS
+  cases hp : l.ps with
+  | none => simp
+  | some p =>
+    simp only [Option.some.injEq, forall_eq']
+    rw [← canCompose_iff]
+    cases p.canCompose keys <;> simp
+
+theorem validatePS_error (l : Side) (keys : List Nat) (e : Err) (h : validatePS l keys = .error e) :
+    e = .assertion := by
+  unfold validatePS at h
+  split at h
+  · split at h <;> cases h; rfl
+  · cases h
+
+/-- non-vacuity: a two-mode component at offset 0 of a two-mode processor whose post-selection reads mode 0 only
+is refused with AssertionError, with a post-selection on both modes it is accepted, on a reserved mode the
+mapping error comes first -/
+example :
+    let l1 : Side := ⟨false, 2, 2, [true, true], [], [none, none], [], [], ["", ""], ["", ""],
+      some (.cond [0] .eq 1)⟩
+    let l2 : Side := ⟨false, 2, 2, [true, true], [], [none, none], [], [], ["", ""], ["", ""],
+      some (.cond [0, 1] .eq 1)⟩
+    let l3 : Side := ⟨false, 2, 2, [true, false], [], [none, none], [], [], ["", ""], ["", ""],
+      some (.cond [0] .eq 1)⟩
+    let r : Side := ⟨true, 2, 2, [], [], [], [], [], [], [], none⟩
+    compVerdict l1 r (.ofInt 0) = some .assertion ∧ compVerdict l2 r (.ofInt 0) = none ∧
+    compVerdict l3 r (.ofInt 0) = some .unavailable ∧ compVerdict l1 r (.ofList [1, 0]) = some .assertion ∧
+    compVerdict l2 r (.ofList [1, 1]) = some .invalid ∧
+    (compose .all true true l1 r (.ofInt 0) true).toOption.isSome = false := by decide
+
+
+/-- **`add(b, component)` on a processor WITH a post-selection, as a statement about modes**: accepted iff the modes
+`b … b+m-1` are all connectible and no condition of the left post-selection contains some but not all of them;
+refused with `AssertionError` iff they are all connectible and some condition does -/
+theorem add_component_offset_ps_iff (f1 : RFlags) (f2 f3 : Bool) (l r : Side) (b : Int) (keep : Bool)
+    (hr : r.comp = true) (hm : 0 < r.m) :
+    ((∃ res, compose f1 f2 f3 l r (.ofInt b) keep = .ok res) ↔
+      (∀ i : Nat, i < r.m → connectible l.cs l.conn (b + i) = true) ∧
+      ∀ p, l.ps = some p → ∀ c ∈ p.conds,
+        (∀ i : Nat, i < r.m → (b + i).toNat ∈ c) ∨ (∀ i : Nat, i < r.m → (b + i).toNat ∉ c)) ∧
+    (compose f1 f2 f3 l r (.ofInt b) keep = .error .assertion ↔
+      (∀ i : Nat, i < r.m → connectible l.cs l.conn (b + i) = true) ∧
+      ¬ ∀ p, l.ps = some p → ∀ c ∈ p.conds,
+        (∀ i : Nat, i < r.m → (b + i).toNat ∈ c) ∨ (∀ i : Nat, i < r.m → (b + i).toNat ∉ c)) := by
+  obtain ⟨h1, h2⟩ := add_component_closed f1 f2 f3 l r (.ofInt b) keep hr hm (fun items h => by cases h)
+  have hkeys : ∀ (P : Nat → Prop),
+      (∀ k ∈ (List.range r.m).map (fun (i : Nat) => (b + Int.ofNat i).toNat), P k) ↔
+        ∀ i : Nat, i < r.m → P (b + i).toNat := by
+    intro P
+    simp [List.mem_map, List.mem_range]
+  have hval : validatePS l ((List.range r.m).map fun (i : Nat) => (b + Int.ofNat i).toNat) = .ok () ↔
+      ∀ p, l.ps = some p → ∀ c ∈ p.conds,
+        (∀ i : Nat, i < r.m → (b + i).toNat ∈ c) ∨ (∀ i : Nat, i < r.m → (b + i).toNat ∉ c) := by
+    rw [validatePS_ok_iff]
+    constructor
+    · intro h p hp c hc
+      rcases h p hp c hc with h' | h'
+      · exact Or.inl ((hkeys (· ∈ c)).1 h')
+      · exact Or.inr ((hkeys (· ∉ c)).1 h')
+    · intro h p hp c hc
+      rcases h p hp c hc with h' | h'
+      · exact Or.inl ((hkeys (· ∈ c)).2 h')
+      · exact Or.inr ((hkeys (· ∉ c)).2 h')
+  have hall : (List.range r.m).all (fun i => connectible l.cs l.conn (b + Int.ofNat i)) = true ↔
+      ∀ i : Nat, i < r.m → connectible l.cs l.conn (b + i) = true := by
+    simp [List.all_eq_true, List.mem_range]
+  rw [h1, h2 .assertion, ← hall, ← hval]
+  by_cases hA : (List.range r.m).all (fun i => connectible l.cs l.conn (b + Int.ofNat i)) = true
+  · simp only [compVerdict, hA, if_true, true_and]
+    cases hv : validatePS l ((List.range r.m).map fun (i : Nat) => (b + Int.ofNat i).toNat) with
+    | ok u => simp
+    | error e =>
+      have := validatePS_error l _ e hv
+      subst this
+      simp
+  · simp only [compVerdict, hA]
+    simp
+
+/-- **`add([k0, k1, …], component)` on a processor WITH a post-selection**: accepted iff the list has `m` entries, no
+repetition, only connectible modes, and no condition of the left post-selection contains some but not all of the
+listed modes; refused with `AssertionError` iff the first three hold and some condition does -/
+theorem add_component_list_ps_iff (f1 : RFlags) (f2 f3 : Bool) (l r : Side) (ks : List Int) (keep : Bool)
+    (hr : r.comp = true) (hm : 0 < r.m) :
+    ((∃ res, compose f1 f2 f3 l r (.ofList ks) keep = .ok res) ↔
+      (ks.length = r.m ∧ ks.Nodup) ∧ (∀ k ∈ ks, connectible l.cs l.conn k = true) ∧
+      ∀ p, l.ps = some p → ∀ c ∈ p.conds, (∀ k ∈ ks, k.toNat ∈ c) ∨ (∀ k ∈ ks, k.toNat ∉ c)) ∧
+    (compose f1 f2 f3 l r (.ofList ks) keep = .error .assertion ↔
+      (ks.length = r.m ∧ ks.Nodup) ∧ (∀ k ∈ ks, connectible l.cs l.conn k = true) ∧
+      ¬ ∀ p, l.ps = some p → ∀ c ∈ p.conds, (∀ k ∈ ks, k.toNat ∈ c) ∨ (∀ k ∈ ks, k.toNat ∉ c)) := by
+  obtain ⟨h1, h2⟩ := add_component_closed f1 f2 f3 l r (.ofList ks) keep hr hm (fun items h => by cases h)
+  have hkeys : ∀ (P : Nat → Prop), (∀ k ∈ ks.map Int.toNat, P k) ↔ ∀ k ∈ ks, P k.toNat := by
+    intro P
+    simp [List.mem_map]
+  have hval : validatePS l (ks.map Int.toNat) = .ok () ↔
+      ∀ p, l.ps = some p → ∀ c ∈ p.conds, (∀ k ∈ ks, k.toNat ∈ c) ∨ (∀ k ∈ ks, k.toNat ∉ c) := by
+    rw [validatePS_ok_iff]
+    constructor
+    · intro h p hp c hc
+      rcases h p hp c hc with h' | h'
+      · exact Or.inl ((hkeys (· ∈ c)).1 h')
+      · exact Or.inr ((hkeys (· ∉ c)).1 h')
+    · intro h p hp c hc
+      rcases h p hp c hc with h' | h'
+      · exact Or.inl ((hkeys (· ∈ c)).2 h')
+      · exact Or.inr ((hkeys (· ∉ c)).2 h')
+  have hall : ks.all (fun k => connectible l.cs l.conn k) = true ↔
+      ∀ k ∈ ks, connectible l.cs l.conn k = true := by
+    simp [List.all_eq_true]
+  rw [h1, h2 .assertion, ← hall, ← hval]
+  by_cases hbad : ks.length ≠ r.m ∨ ¬ ks.Nodup
+  · have hn : ¬ (ks.length = r.m ∧ ks.Nodup) := by
+      rintro ⟨a, b⟩
+      rcases hbad with h | h
+      · exact h a
+      · exact h b
+    simp only [compVerdict, hbad, if_true, hn, false_and]
+    simp
+  · have hy : ks.length = r.m ∧ ks.Nodup := by
+      constructor
+      · by_contra h; exact hbad (Or.inl h)
+      · by_contra h; exact hbad (Or.inr h)
+    by_cases hA : ks.all (fun k => connectible l.cs l.conn k) = true
+    · simp only [compVerdict, hA, if_true, hy, true_and, and_self]
+      cases hv : validatePS l (ks.map Int.toNat) with
+      | ok u => simp
+      | error e =>
+        have := validatePS_error l _ e hv
+        subst this
+        simp
+    · simp only [compVerdict, hA, hy, true_and]
+      simp
 
 
 end PM.C10
